@@ -28,6 +28,11 @@ pub struct Config {
     pub max_buf: usize,
     /// enumerate every cut point of the last record (C08 fault enumeration)
     pub enumerate_cuts: bool,
+    /// one run in eight lets real code encode hash containers with several elements. Their
+    /// iteration order differs from process to process, so the bytes of such runs (not their
+    /// verdicts) are unrepeatable; they are left out of the canonical event log and the determinism
+    /// self-test switches them off.
+    pub unordered: bool,
 }
 
 fn case_hash(c: &Case, outcome: &str) -> u64 {
@@ -44,6 +49,7 @@ pub struct Run<'a> {
     pub violations: Vec<Violation>,
     pub trace: Vec<String>,
     pub run_seed: u64,
+    pub unordered_run: bool,
 }
 
 impl<'a> Run<'a> {
@@ -69,8 +75,10 @@ impl<'a> Run<'a> {
             self.stats.count("probe.nested_region_depth_ge_2");
         }
         let ch = case_hash(&case, ev.outcome);
-        self.stats.note(ch);
-        self.stats.note(ev.meter.ticks);
+        if !self.unordered_run {
+            self.stats.note(ch);
+            self.stats.note(ev.meter.ticks);
+        }
         if nontrivial {
             self.stats.distinct.insert(ch);
         }
@@ -122,7 +130,7 @@ pub fn run(cat: &Catalog, cfg: &Config, stats: &mut Stats, run_seed: u64) -> Vec
     let mut fl = root.derive("faults");
     let mut sc = root.derive("schedule");
 
-    let mut run = Run { cat, cfg, stats, violations: vec![], trace: vec![], run_seed };
+    let mut run = Run { cat, cfg, stats, violations: vec![], trace: vec![], run_seed, unordered_run: false };
     run.stats.runs += 1;
 
     // ---- swarm configuration -----------------------------------------------------------------
@@ -145,7 +153,13 @@ pub fn run(cat: &Catalog, cfg: &Config, stats: &mut Stats, run_seed: u64) -> Vec
     ));
 
     // ---- workload: writes and syncs --------------------------------------------------------------
-    let gen = Gen::new(&cat.reg, size);
+    let mut gen = Gen::new(&cat.reg, size);
+    if cfg.unordered && sw.chance(1, 8) {
+        gen.max_hash_elems = 6;
+        run.unordered_run = true;
+        run.stats.count("probe.unordered_run_multi_element_hash_containers");
+        run.trace.push("hash containers with several elements (iteration order is per process)".into());
+    }
     let mut bgen = Gen::new(&cat.reg, size);
     bgen.boundary = true;
     let mut records: Vec<Record> = Vec::new();
